@@ -10,6 +10,7 @@ From Coq Require Import NArith ZArith List Bool.
 From ST Require Import Base.Outcome Base.Units Utf.Spec Utf.Tokens Utf.Model Utf.ProofsC01 Utf.ProofsC03 Utf.ApiCoverage.
 From ST Require Utf.LeafBridge Gen.Leaf.
 From ST Require Utf.LoopBridge Utf.LoopBridgeMeasure Utf.LoopBridgeConvert32 Utf.LoopBridgeConvert16To8.
+From ST Require Utf.SourceFit.
 Import ListNotations.
 Local Open Scope N_scope.
 
@@ -160,3 +161,35 @@ Theorem utf16_to_utf8_pass_matches_source : forall l m fuel, all_lt 65536 l = tr
     forall d : dst, (length ws <= fst d)%nat -> utf8_convert_from_utf16 d l m = ST.Utf.LoopBridgeConvert16To8.model_of oe d ws.
 Proof. exact ST.Utf.LoopBridgeConvert16To8.utf8_convert_from_utf16_matches_source. Qed.
 Print Assumptions utf16_to_utf8_pass_matches_source.
+
+(* ---- the two passes as found in the current headers fit each other (the source-level form of passes_agree for
+   ST::latin_1_to_utf8 / ST::string::from_latin_1): for a Latin-1 string of any length, the size the translated measuring
+   pass returns — what the caller allocates — is exactly the number of bytes the translated converting pass stores ---- *)
+Theorem latin_1_to_utf8_source_passes_fit : forall l fuel, all_lt 256 l = true ->
+  (4 * Z.of_nat (length l) < 18446744073709551616)%Z -> (length l < fuel)%nat ->
+  exists ws, ST.Gen.Leaf.src_utf8_convert_from_latin_1 fuel (ST.Utf.LoopBridge.arr8s l) (Z.of_nat (length l)) = Some ws /\
+             ST.Gen.Leaf.src_utf8_measure_from_latin_1 fuel (ST.Utf.LoopBridge.arr8s l) (Z.of_nat (length l)) = Some (Z.of_nat (length ws)).
+Proof. exact ST.Utf.SourceFit.latin_1_to_utf8_source_passes_fit. Qed.
+Print Assumptions latin_1_to_utf8_source_passes_fit.
+
+(* ... and for the passes that can stop at an error under check_validity: what the translated converting pass stores never
+   exceeds the size the translated measuring pass returned, and equals it when the pass reports success *)
+Theorem utf32_to_utf8_source_passes_fit : forall l m fuel, all_lt 4294967296 l = true ->
+  (4 * Z.of_nat (length l) < 18446744073709551616)%Z -> (length l < fuel)%nat ->
+  exists e ws n,
+    ST.Gen.Leaf.src_utf8_convert_from_utf32 fuel (ST.Utf.LoopBridge.arr32 l) (Z.of_nat (length l)) (ST.Utf.LoopBridgeConvert32.mode_code m)
+      = Some (Z.of_N (cerr_code e), ws) /\
+    ST.Gen.Leaf.src_utf8_measure_from_utf32 fuel (ST.Utf.LoopBridge.arr32 l) (Z.of_nat (length l)) = Some (Z.of_nat n) /\
+    (length ws <= n)%nat /\ (e = CSuccess -> length ws = n).
+Proof. exact ST.Utf.SourceFit.utf32_to_utf8_source_passes_fit. Qed.
+Print Assumptions utf32_to_utf8_source_passes_fit.
+
+Theorem utf32_to_utf16_source_passes_fit : forall l m fuel, all_lt 4294967296 l = true ->
+  (4 * Z.of_nat (length l) < 18446744073709551616)%Z -> (length l < fuel)%nat ->
+  exists e ws n,
+    ST.Gen.Leaf.src_utf16_convert_from_utf32 fuel (ST.Utf.LoopBridge.arr32 l) (Z.of_nat (length l)) (ST.Utf.LoopBridgeConvert32.mode_code m)
+      = Some (Z.of_N (cerr_code e), ws) /\
+    ST.Gen.Leaf.src_utf16_measure_from_utf32 fuel (ST.Utf.LoopBridge.arr32 l) (Z.of_nat (length l)) = Some (Z.of_nat n) /\
+    (length ws <= n)%nat /\ (e = CSuccess -> length ws = n).
+Proof. exact ST.Utf.SourceFit.utf32_to_utf16_source_passes_fit. Qed.
+Print Assumptions utf32_to_utf16_source_passes_fit.
